@@ -1,17 +1,21 @@
 #!/bin/bash
-# usage: seedtest.sh <patch.diff> <PROP> [PROP...]   -- apply a seeded change to /repo, run the checks, undo.
-# Prints for each property: CAUGHT / missed. Never leaves /repo modified.
+# usage: seedtest.sh <patch.diff> <PROP> [PROP...]   -- analyse a seeded change as an overlay on /repo (which is not
+# modified) and print for each property: CAUGHT / missed.   APPLY=1 applies the patch to /repo instead and undoes it.
 set -u
 PATCH=$(readlink -f "$1"); shift
 BIN=${KVCHECK:-/verif/bin/kvcheck}
-cd /repo || exit 2
-if [ -n "$(git status --porcelain)" ]; then echo "/repo not clean"; exit 2; fi
-trap 'git -C /repo checkout -- . >/dev/null 2>&1' EXIT
-git apply "$PATCH" || { echo "patch does not apply"; exit 2; }
 V=$(mktemp -d /tmp/seedv.XXXXXX)
 cp /verif/known_findings.json "$V"/ 2>/dev/null
+ARG=(-patch "$PATCH")
+if [ -n "${APPLY:-}" ]; then
+  cd /repo || exit 2
+  if [ -n "$(git status --porcelain)" ]; then echo "/repo not clean"; exit 2; fi
+  trap 'git -C /repo checkout -- . >/dev/null 2>&1; git -C /repo clean -fdq >/dev/null 2>&1' EXIT
+  git apply "$PATCH" || { echo "patch does not apply"; exit 2; }
+  ARG=()
+fi
 for P in "$@"; do
-  OUT=$($BIN -prop "$P" -verif "$V" -nocontrols 2>&1); RC=$?
+  OUT=$($BIN -prop "$P" -verif "$V" -nocontrols "${ARG[@]}" 2>&1); RC=$?
   if [ $RC -ne 0 ]; then echo "$P CAUGHT: $(echo "$OUT" | grep -A1 '^VIOLATION' | grep 'rule=' | sort | uniq -c | tr '\n' ' ')"; else echo "$P missed"; fi
   [ -n "${VERBOSE:-}" ] && echo "$OUT"
 done
